@@ -333,6 +333,19 @@ def closure_rule(ctx, rep, rid):
                 ]
                 gupd = [c for c in upd if c.func.value.id == g]
                 acc = [c for c in upd if c.func.value.id not in (g, v)]
+                # ... or the accumulator takes the whole next frontier once it is complete: heritage.update(older)
+                acc += [
+                    c
+                    for c in ast.walk(w)
+                    if isinstance(c, ast.Call)
+                    and isinstance(c.func, ast.Attribute)
+                    and c.func.attr in ('update', '__ior__')
+                    and isinstance(c.func.value, ast.Name)
+                    and c.func.value.id not in (g, v)
+                    and len(c.args) == 1
+                    and isinstance(c.args[0], ast.Name)
+                    and c.args[0].id == g
+                ]
                 inner = [
                     l
                     for l in ast.walk(w)
@@ -590,3 +603,50 @@ def borrow(ctx, rep, items):
         mod = importlib.import_module('.' + modname, __package__)
         run(mod)
         rep.extra['borrowed_rules'].append({'from': modname.upper(), 'why': why})
+
+
+def path_condition(func, node):
+    """the tests that must have taken a known outcome for control to reach `node` inside func, syntactically: enclosing
+    if / elif arms and guard clauses (an earlier `if T: <ends in return / raise / break / continue>` of an enclosing
+    block contributes `not T`).  -> [(test expr, outcome bool)] outermost first.  Loops and try blocks are transparent."""
+
+    def ends(block):
+        return bool(block) and isinstance(block[-1], (ast.Return, ast.Raise, ast.Break, ast.Continue))
+
+    chain = []
+
+    def find(stmts, acc):
+        for i, s in enumerate(stmts):
+            if s is node or any(x is node for x in ast.walk(s)):
+                here = list(acc)
+                for prev in stmts[:i]:
+                    if isinstance(prev, ast.If):
+                        if ends(prev.body) and not ends(prev.orelse):
+                            here.append((prev.test, False))
+                        elif prev.orelse and ends(prev.orelse) and not ends(prev.body):
+                            here.append((prev.test, True))
+                if s is node:
+                    chain.extend(here)
+                    return True
+                if isinstance(s, ast.If):
+                    if any(x is node for x in ast.walk(s.test)):
+                        chain.extend(here)
+                        return True
+                    if find(s.body, here + [(s.test, True)]) or find(s.orelse, here + [(s.test, False)]):
+                        return True
+                for fld in ('body', 'orelse', 'finalbody'):
+                    b = getattr(s, fld, None)
+                    if isinstance(b, list) and b and isinstance(b[0], ast.stmt) and not isinstance(s, (ast.If, ast.FunctionDef, ast.AsyncFunctionDef, ast.ClassDef)):
+                        if find(b, here):
+                            return True
+                if isinstance(s, ast.Try):
+                    for h in s.handlers:
+                        if find(h.body, here):
+                            return True
+                # the node sits in an expression of this statement
+                chain.extend(here)
+                return True
+        return False
+
+    find(func.node.body, [])
+    return chain
